@@ -584,6 +584,107 @@ run_pullup(void *arg)
 	vh_fini();
 }
 
+
+// ---------------------------------------------------------------------------------
+// (e2) one message fanned out to several inproc receivers (PUB -> 3 SUB, BUS -> 3 BUS): every
+//      receiver gets the bytes that were sent and keeps them whatever another receiver does to
+//      its copy - with the receives already waiting when the message is sent (handed over
+//      directly) or entered afterwards (taken from the receive queue), for each receiver
+// ---------------------------------------------------------------------------------
+static struct {
+	nng_aio *aio;
+	int      done, res;
+} FA[3];
+static void
+fa_cb(void *arg)
+{
+	int i      = (int) (intptr_t) arg;
+	FA[i].done = 1;
+	FA[i].res  = nng_aio_result(FA[i].aio);
+}
+static void
+run_fanout(void *arg)
+{
+	int bus = (int) (intptr_t) arg;
+	vh_init(0);
+	static const int BS[] = { 0, 1, 16, 33, 1000, 65536 };
+	int bs      = BS[vs_choose(VK_ENV, 6)];
+	int waiting = vs_choose(VK_ENV, 8); // bit i: receiver i waits before the send
+	int editor  = vs_choose(VK_ENV, 3); // the receiver that edits its copy in place
+	nng_socket tx, rx[3];
+	VH_OK(bus ? nng_bus0_open(&tx) : nng_pub0_open(&tx));
+	VH_OK(nng_listen(tx, "inproc://c01fan", NULL, 0));
+	for (int i = 0; i < 3; i++) {
+		VH_OK(bus ? nng_bus0_open(&rx[i]) : nng_sub0_open(&rx[i]));
+		if (!bus)
+			VH_OK(nng_sub0_socket_subscribe(rx[i], "", 0));
+		VH_OK(nng_dial(rx[i], "inproc://c01fan", NULL, 0));
+		VH_OK(nng_aio_alloc(&FA[i].aio, fa_cb, (void *) (intptr_t) i));
+		nng_aio_set_timeout(FA[i].aio, 100);
+		FA[i].done = 0;
+	}
+	vs_settle();
+	for (int i = 0; i < 3; i++)
+		if (waiting & (1 << i))
+			nng_socket_recv(rx[i], FA[i].aio);
+	vs_settle();
+	nng_msg *msg;
+	VH_OK(nng_msg_alloc(&msg, (size_t) bs));
+	for (int i = 0; i < bs; i++)
+		((uint8_t *) nng_msg_body(msg))[i] = pat(5, (size_t) i);
+	if (nng_sendmsg(tx, msg, NNG_FLAG_NONBLOCK) != 0)
+		vs_fail("C01:inproc:send", "fan-out send refused");
+	vs_settle();
+	for (int i = 0; i < 3; i++)
+		if (!(waiting & (1 << i)))
+			nng_socket_recv(rx[i], FA[i].aio);
+	vs_settle();
+	nng_msg *got[3];
+	for (int i = 0; i < 3; i++) {
+		if (!FA[i].done || FA[i].res != 0)
+			vs_fail("C01:inproc:lost", "fan-out %s body %d waiting %d: receiver %d: %s",
+			    bus ? "bus" : "pub", bs, waiting, i,
+			    FA[i].done ? nng_strerror(FA[i].res) : "receive still pending");
+		got[i] = nng_aio_get_msg(FA[i].aio);
+	}
+	// the editor rewrites, shortens and extends its copy
+	{
+		nng_msg *e = got[editor];
+		memset(nng_msg_body(e), 'X', nng_msg_len(e));
+		if (nng_msg_len(e) >= 8)
+			VH_OK(nng_msg_trim(e, 4));
+		VH_OK(nng_msg_append(e, "YYYYYYYY", 8));
+		VH_OK(nng_msg_insert(e, "ZZ", 2));
+		VH_OK(nng_msg_header_append_u32(e, 0x58585858u));
+	}
+	for (int i = 0; i < 3; i++) {
+		if (i == editor)
+			continue;
+		if ((int) nng_msg_len(got[i]) != bs || nng_msg_header_len(got[i]) != 0)
+			vs_fail("C01:inproc:altered",
+			    "fan-out %s: receiver %d holds %zu body / %zu header bytes, %d / 0 were sent "
+			    "(receiver %d edited its own copy)",
+			    bus ? "bus" : "pub", i, nng_msg_len(got[i]), nng_msg_header_len(got[i]), bs,
+			    editor);
+		for (int k = 0; k < bs; k++)
+			if (((uint8_t *) nng_msg_body(got[i]))[k] != pat(5, (size_t) k))
+				vs_fail("C01:inproc:altered",
+				    "fan-out %s body %d (waiting mask %d): receiver %d sees byte %d changed "
+				    "after receiver %d edited its own copy",
+				    bus ? "bus" : "pub", bs, waiting, i, k, editor);
+	}
+	for (int i = 0; i < 3; i++) {
+		nng_msg_free(got[i]);
+		nng_aio_free(FA[i].aio);
+		nng_socket_close(rx[i]);
+	}
+	vs_nontrivial();
+	vs_outcome("ok");
+	vs_log("bus=%d body=%d waiting=%d editor=%d", bus, bs, waiting, editor);
+	nng_socket_close(tx);
+	vh_fini();
+}
+
 // ---------------------------------------------------------------------------------
 // (f) websocket, receive side: a raw TCP client sends the upgrade request and
 //     two binary frames as ONE byte stream, cut at every offset from shortly
@@ -827,6 +928,8 @@ main(int argc, char **argv)
 	// (e) inproc pull-up
 	explore("inproc-pullup-unique", run_pullup, (void *) 0, 0, 0);
 	explore("inproc-pullup-shared", run_pullup, (void *) 1, 0, 0);
+	explore("inproc-fanout-independent-pub", run_fanout, (void *) 0, 0, 0);
+	explore("inproc-fanout-independent-bus", run_fanout, (void *) 1, 0, 0);
 	vx_note("space",
 	    "cutter: pair0/pair1/rep x 6 size sequences x every 1-cut%s, byte-at-a-"
 	    "time; clamps: 5 transports x {pair0, xreq->xrep with 0/8/13 hop words} "
